@@ -221,3 +221,15 @@ Theorem C08_history_meets_property : forall d registered qs tags,
           (combine qs tags) (serve_history d registered qs).
 Proof. exact history_meets_property. Qed.
 Print Assumptions C08_history_meets_property.
+
+(* ---- the error responder invoked is the one the API has when the request is served: the last one assigned,
+   whether it was assigned before or after the Context / handler was built from the API ---- *)
+Theorem C08_error_responder_construction_point_irrelevant : forall a b c,
+  responder_in_force (mkrcfg (a ++ b) c) = responder_in_force (mkrcfg a (b ++ c)).
+Proof. exact responder_construction_point_irrelevant. Qed.
+Print Assumptions C08_error_responder_construction_point_irrelevant.
+
+Theorem C08_error_responder_assigned_later_wins : forall before after r,
+  responder_in_force (mkrcfg before (after ++ [r])) = r.
+Proof. exact responder_assigned_later_wins. Qed.
+Print Assumptions C08_error_responder_assigned_later_wins.
